@@ -285,9 +285,12 @@ class JWEKeyAgreement(KeyManagement, metaclass=ABCMeta):
         recipient_key = recipient.recipient_key
         assert recipient_key is not None
         self.check_key_type(recipient_key)
-        if recipient.ephemeral_key is None:
+        # a key generated here by an earlier encryption of the same object is
+        # not a caller-provided one: every encryption gets a fresh ephemeral key
+        if recipient.ephemeral_key is None or getattr(recipient, "_ephemeral_key_generated", False):
             ephemeral_key = recipient_key.generate_key(recipient_key.curve_name, private=True)
             recipient.ephemeral_key = ephemeral_key
+            recipient._ephemeral_key_generated = True
         recipient.add_header("epk", recipient.ephemeral_key.as_dict(private=False))
 
     @abstractmethod
